@@ -182,7 +182,7 @@ add("c10_unknown_start_keeps_handed_over_prefix", ["C10"], "ext.rs", "U", "publi
 # extension round: header parsing across a refill (some header bytes buffered, the rest dripping in from the source)
 for n, bufn, per, cap in (("hdr_refill_buf4_per1_cap16", 4, 1, 16), ("hdr_refill_buf1_per3_cap16", 1, 3, 16), ("hdr_refill_buf8_per1_cap24", 8, 1, 24), ("hdr_refill_buf0_per5_cap16", 0, 5, 16)):
     add(n, ["C04", "C12", "C03"], "ext2.rs", "U", "peek_valid_tag_header with %d of 16 stream bytes buffered (allocation %d) and the rest delivered %d byte(s) per read: never an EOF/read error, result == ref_header(the 16 stream bytes), position unchanged, buffered bytes == stream bytes" % (bufn, cap, per),
-        "16 symbolic stream bytes; split/read size/allocation concrete; spec Flat, strict mode, no size limit, nothing open", tier="thorough", timeout_s=1500, mem_gb=10, stubs=["io", "hash"], assumes=["pre-state: cursor 0, base offset 0, source never fails"])
+        "16 symbolic stream bytes; split/read size/allocation concrete; spec Flat, strict mode, no size limit, nothing open", tier="quick", timeout_s=1500, mem_gb=8, stubs=["io", "hash"], assumes=["pre-state: cursor 0, base offset 0, source never fails"])
 
 # ---------------------------------------------------------------- public-API skeleton documents (Flat, <= 3 next() calls)
 DOC_A = ["structure (element types, payload lengths, cut, read partition, capacity) is concrete and enumerated; only payload bytes are symbolic", "spec Flat (all elements at root level), strict mode",
@@ -282,13 +282,13 @@ QUICK_KEEP = {
  "C03": ["hdr_flat_full", "hdr_flat_trunc", "doc_u3_u1", "doc_i2_i0", "doc_f4_f8", "doc_s1_b3", "doc_b0_u8", "cut_u3_b2_at4", "cut_u3_b2_at5", "hdr_tree_first_l3", "hdr_tree_first_void"],
  "C04": ["hdr_flat_trunc", "hdr_flat_full", "edr_refill_cap16_len16", "edr_first_fill_cap16_len8", "edr_refill_cap8_len16", "edr_first_fill_cap0_len1", "edr_refill_cap16_len5",
          "edr_refill_cap16_len16_at_6_8", "edr_refill_cap8_len16_at_4_8", "chunk_u2_b1_1x7", "chunk_u2_b1_2_3_2", "chunk_u2_b1_cap0", "chunk_u2_b1_cap1", "chunk_u2_b1_pause",
-         "slice_u2_b1_cap0", "rn_eof_noclose_2"],
+         "slice_u2_b1_cap0", "rn_eof_noclose_2", "hdr_refill_buf4_per1_cap16", "hdr_refill_buf8_per1_cap24"],
  "C05": ["hdr_flat_full", "hdr_flat_trunc", "edr_refill_cap16_len16", "edr_first_fill_cap16_len8", "edr_refill_cap8_len16", "edr_first_fill_cap0_len1", "edr_source_error",
          "c16_arr_to_i64", "c14_recover_at_end", "c14_recover_arbitrary_3", "doc_f3_u1", "doc_i2_i0", "slice_u2_b1_cap0", "cut_u3_b2_at2"],
  "C09": ["c09_id_bytes", "c09_end_tag_w0_c2", "c09_end_tag_w1_c2", "c09_end_tag_w8_c2", "c09_uint_w2_c1", "c09_uint_w2_c2", "c09_uint_w2_c4", "c09_uint_w2_c8", "c09_int_w2_c2", "c09_int_w2_c4",
          "c09_float_w3", "c09_binary_w0", "c09_binary_w1", "c09_binary_w4", "c09_binary_w8", "c09_utf8_w2", "c09_width_dispatch", "c09_unknown_size_equivalence",
          "c09_flush_short_1", "c09_flush_short_3", "c09_flush_short_2_of_5", "c19_binary_width1_overflow", "c19_utf8_width1_len127", "c11_writer_unknown_start_misplaced"],
- "C12": ["hdr_flat_trunc", "cut_u3_b2_at2", "cut_u3_b2_at3", "cut_u3_b2_at4", "cut_u3_b2_at5", "cut_u3_b2_at8"],
+ "C12": ["hdr_flat_trunc", "cut_u3_b2_at2", "cut_u3_b2_at3", "cut_u3_b2_at4", "cut_u3_b2_at5", "cut_u3_b2_at8", "hdr_refill_buf4_per1_cap16", "hdr_refill_buf8_per1_cap24"],
  "C14": ["c14_recover_junk1", "c14_recover_at_end", "hdr_flat_full"],  # c14_recover_arbitrary_3 (~510 s) runs in C05's quick tier and in C14's thorough tier: keeps C14 cold well below 900 s
  "C16": ["c16_arr_to_u64", "c16_arr_to_i64", "c16_arr_to_f64", "c16w_float"] + ["c16w_uint_w0_c%d" % c for c in (1, 2, 4, 8)] + ["c16w_int_w0_c%d" % c for c in (1, 2, 4, 8)]
         + ["c09_uint_w2_c4", "doc_i2_i0", "doc_f4_f8"],
